@@ -123,6 +123,7 @@ class NameStream(Stream):
                 elif "_" in p.basename:
                     b1, b2 = p.basename.split("_", 1)
                     cands.append(Pin(b1, b2))
+            sm = m.solve() if cands else None
             for o in cands[:6]:
                 sol = lk.Solver()
                 with sol:
@@ -140,6 +141,14 @@ class NameStream(Stream):
                         # the placement itself may have been registered before the rejected link; the LINK tables must be untouched
                         if dict(sol.connections) != before[1] or (partner, Pin("a0")) not in sol.free_pins:
                             raise Expectation("a rejected put changed the link tables")
+                # the same Pin object addressed to the read-outs of the solved model: accepted iff it is one of its pins
+                try:
+                    sm.get_A(o, o), sm.get_T(o, o), sm.get_output({o: 1.0})
+                    racc = True
+                except Exception:
+                    racc = False
+                if racc != acc:
+                    raise Expectation("placement and read-outs disagree on whether the Pin object is a pin of the model")
                 objs.append(((o.basename, o.mode_name), acc))
             if d.get("lose") is not None and d["via"] == "structure":
                 # the placed structure's table is read, the structure then LOSES a pin (its neighbour is removed), and the
